@@ -23,7 +23,7 @@ import z3
 __all__ = [
     "Engine", "ConcreteEngine", "PinnedEngine", "SInt", "SReal", "SBool", "SNum",
     "Infeasible", "Inconclusive", "Violation", "Failure", "is_sym", "sand", "sor", "snot", "ite",
-    "smin", "smax", "sabs", "to_py",
+    "smin", "smax", "sabs", "to_py", "aeq",
 ]
 
 
@@ -416,6 +416,16 @@ def smax(a, b):
 
 def sabs(a):
     return abs(a)
+
+
+def aeq(a, b, rel=1e-9):
+    """equality for oracles over quotients: exact on proxies (exact reals), tolerant to the rounding of
+    CPython floats when the harness is replayed concretely."""
+    if is_sym(a) or is_sym(b):
+        return a == b
+    if isinstance(a, float) or isinstance(b, float):
+        return abs(a - b) <= rel * max(abs(a), abs(b), 1)
+    return a == b
 
 
 def to_py(model, x):
